@@ -50,6 +50,9 @@ func checkC04(c *Ctx, r *Report) {
 	ruleGASSERT(c, r, scope, 25)
 	ruleNoReaderAliasing(c, r)
 	ruleBoxSizeGuard(c, r)
+	if ruleHeaderMin(c, r) < 2 {
+		r.Undecided("O-HDRMIN", "scope", "", "DecodeHeader and DecodeHeaderSR not both found")
+	}
 	r.Floor("G1", 15)
 	r.Floor("G2", 5)
 }
